@@ -5,7 +5,9 @@ import (
 	"fmt"
 	"io"
 	"runtime"
+	"runtime/debug"
 	"testing"
+	"time"
 	"unsafe"
 
 	"github.com/bytedance/gopkg/lang/mcache"
@@ -53,6 +55,22 @@ type tenant struct {
 	held   [][]byte
 	sweeps int
 	taken  int
+	// maxClass is the largest size class (log2) the co-tenant takes buffers from; 0 = tenantMaxClass.
+	// Classes above tenantMaxClass are swept with 2 buffers instead of tenantK.
+	maxClass int
+}
+
+// tenantFor returns a co-tenant that covers the size classes a history moving maxBytes can touch.
+func tenantFor(maxBytes int) *tenant {
+	tn := &tenant{}
+	if maxBytes > 1<<(tenantMaxClass-2) {
+		c := tenantMaxClass
+		for c < 26 && 1<<(c-2) < maxBytes {
+			c++
+		}
+		tn.maxClass = c
+	}
+	return tn
 }
 
 func poison(b []byte) {
@@ -109,8 +127,15 @@ func (tn *tenant) sweep(protected []memRange, hold bool) *evid.Violation {
 	tn.sweeps++
 	var got [][]byte
 	var viol *evid.Violation
-	for c := tenantMinClass; c <= tenantMaxClass; c++ {
+	maxClass := tenantMaxClass
+	if tn.maxClass > maxClass {
+		maxClass = tn.maxClass
+	}
+	for c := tenantMinClass; c <= maxClass; c++ {
 		for k := 0; k < tenantK; k++ {
+			if c > tenantMaxClass && k >= 2 {
+				break
+			}
 			b := mcache.Malloc(1 << c)
 			got = append(got, b)
 			tn.taken++
@@ -204,7 +229,7 @@ func checkReaderTenant(c ReaderCase, cv *cov) *evid.Violation {
 	if c.Tenant == 0 {
 		c.Tenant = 1
 	}
-	tn := &tenant{}
+	tn := tenantFor(c.Total)
 	hooks := &readerHooks{}
 	hooks.afterOp = func(step int, op ROp, live [][]byte) *evid.Violation {
 		var prot []memRange
@@ -247,7 +272,13 @@ func checkWriterTenant(c WriterCase, cv *cov) *evid.Violation {
 	if c.Tenant == 0 {
 		c.Tenant = 1
 	}
-	tn := &tenant{}
+	wtotal := 0
+	for _, op := range c.Ops {
+		if op.N > 0 {
+			wtotal += op.N
+		}
+	}
+	tn := tenantFor(wtotal)
 	hooks := &writerHooks{}
 	hooks.afterOp = func(step int, op WOp, live [][]byte, owned [][]byte) *evid.Violation {
 		var prot []memRange
@@ -297,6 +328,9 @@ type SkipTenantCase struct {
 	Cycle      bool         `json:"cycle,omitempty"`       // release the decoder to its pool and fetch a new one between values
 	PoolSource bool         `json:"pool_source,omitempty"` // the io.Reader itself allocates from the shared pool inside Read
 	Fresh      bool         `json:"fresh,omitempty"`       // ReaderSkipDecoder: a zero-value decoder instead of a pooled one
+	// Fail[i] > 0: before value i, a pooled decoder of the same kind is given a value of that string length
+	// whose last bytes are missing (its Next fails after the buffer has grown), and is released again.
+	Fail []int `json:"fail,omitempty"`
 }
 
 func checkSkipTenant(c SkipTenantCase, cv *cov) (v *evid.Violation) {
@@ -311,7 +345,7 @@ func checkSkipTenant(c SkipTenantCase, cv *cov) (v *evid.Violation) {
 	var encs [][]byte
 	var stream []byte
 	for i, l := range c.Lens {
-		if l < 0 || l > 1<<18 {
+		if l < 0 || l > 1<<25 {
 			return nil
 		}
 		val := ref.Value{T: ref.STRUCT, Fields: []ref.Field{{ID: 1, V: ref.Value{T: ref.STRING, Str: patternBytes(byte(i+1), l)}}, {ID: 2, V: ref.Value{T: ref.I32, Bits: uint64(i)}}}}
@@ -319,8 +353,48 @@ func checkSkipTenant(c SkipTenantCase, cv *cov) (v *evid.Violation) {
 		encs = append(encs, e)
 		stream = append(stream, e...)
 	}
-	tn := &tenant{}
+	maxLen := 0
+	for _, l := range append(append([]int{}, c.Lens...), c.Fail...) {
+		if l > maxLen {
+			maxLen = l
+		}
+	}
+	if maxLen > 1<<25 {
+		return nil
+	}
+	tn := tenantFor(maxLen)
 	grew := false
+	sawFail := false
+	// failedDecode lets a pooled decoder fail on a truncated value of string length l.
+	failedDecode := func(i int) *evid.Violation {
+		if i >= len(c.Fail) || c.Fail[i] <= 0 {
+			return nil
+		}
+		l := c.Fail[i]
+		val := ref.Value{T: ref.STRUCT, Fields: []ref.Field{{ID: 1, V: ref.Value{T: ref.STRING, Str: patternBytes(0x77, l)}}}}
+		e, _ := ref.Encode(&val)
+		e = e[:len(e)-3]
+		fsr := faultio.NewScriptReader(e, faultio.Plan{Chunks: []int{0}, ErrAt: -1, WithData: i%2 == 0})
+		sawFail = true
+		if c.Reader {
+			x := thrift.NewReaderSkipDecoder(fsr)
+			_, err := x.Next(ref.STRUCT)
+			x.Release()
+			if err == nil {
+				return evid.Failf("ReaderSkipDecoder.Next accepted a value whose last 3 bytes are missing")
+			}
+		} else {
+			fbr := bufiox.NewDefaultReader(fsr)
+			x := thrift.NewSkipDecoder(fbr)
+			_, err := x.Next(ref.STRUCT)
+			x.Release()
+			fbr.Release(err)
+			if err == nil {
+				return evid.Failf("SkipDecoder.Next accepted a value whose last 3 bytes are missing")
+			}
+		}
+		return tn.step(c.Tenant, i, nil)
+	}
 	body := func() {
 		plan := c.Plan
 		plan.ErrAt = len(stream)
@@ -338,6 +412,14 @@ func checkSkipTenant(c SkipTenantCase, cv *cov) (v *evid.Violation) {
 				rd.Reset(src)
 			}
 			for i := range encs {
+				if i < len(c.Fail) && c.Fail[i] > 0 {
+					rd.Release()
+					if v = failedDecode(i); v != nil {
+						v.Msg = fmt.Sprintf("after a failed decode on a pooled ReaderSkipDecoder before value %d: %s", i, v.Msg)
+						return
+					}
+					rd = thrift.NewReaderSkipDecoder(src)
+				}
 				out, err := rd.Next(ref.STRUCT)
 				if err != nil || !bytes.Equal(out, encs[i]) {
 					v = evid.Failf("ReaderSkipDecoder.Next value %d: err=%v, %d bytes returned, want %d", i, err, len(out), len(encs[i]))
@@ -384,6 +466,13 @@ func checkSkipTenant(c SkipTenantCase, cv *cov) (v *evid.Violation) {
 			return nil
 		}
 		for i := range encs {
+			if v = failedDecode(i); v != nil {
+				v.Msg = fmt.Sprintf("after a failed decode on another pooled SkipDecoder before value %d: %s", i, v.Msg)
+				return
+			}
+			if v = verify(fmt.Sprintf("after a failed decode on another decoder before value %d", i)); v != nil {
+				return
+			}
 			out, err := sd.Next(ref.STRUCT)
 			if err != nil || !bytes.Equal(out, encs[i]) {
 				v = evid.Failf("SkipDecoder.Next value %d: err=%v, %d bytes returned, want %d", i, err, len(out), len(encs[i]))
@@ -431,6 +520,7 @@ func checkSkipTenant(c SkipTenantCase, cv *cov) (v *evid.Violation) {
 	cv.labelIf(c.Reader, "ReaderSkipDecoder")
 	cv.labelIf(!c.Reader, "SkipDecoder")
 	cv.labelIf(grew, "result_retained_across_growth")
+	cv.labelIf(sawFail, "failed_decode_on_pooled_decoder_in_between")
 	return nil
 }
 
@@ -482,6 +572,7 @@ func genSkipTenantCase(t *rapid.T) SkipTenantCase {
 	for i := 0; i < n; i++ {
 		c.Lens = append(c.Lens, rapid.SampledFrom([]int{0, 10, 1000, 2040, 3000, 4090, 5000, 9000, 20000, 70000}).Draw(t, "len"))
 		c.Release = append(c.Release, rapid.IntRange(0, 3).Draw(t, "rel") == 0)
+		c.Fail = append(c.Fail, rapid.SampledFrom([]int{0, 0, 0, 0, 10, 5000, 70000, 200000}).Draw(t, "fail"))
 	}
 	c.Plan = faultio.Plan{Chunks: []int{rapid.SampledFrom([]int{0, 1000, 4096}).Draw(t, "chunk")}, ErrAt: -1, WithData: rapid.Bool().Draw(t, "wd")}
 	return c
@@ -504,4 +595,179 @@ func TestC09_SkipDecoders(t *testing.T) {
 	rec := evid.New("C09", "c09_skipdecoders", "rapid: 1..10 struct values with strings of 0..70000 bytes decoded by SkipDecoder over a buffered reader (results retained until Release of the reader, across growths) and by ReaderSkipDecoder (result retained until the next Next), with pool cycling of the decoders and the co-tenant in between; non-trivial = a result retained while a later value > 4096 bytes forced a growth")
 	defer rec.Flush()
 	runRapid(t, rec, "c09_skip_tenant", evid.Pick(1500, 12000), genSkipTenantCase, checkSkipTenant)
+}
+
+// TestC09_Big: the same three co-tenant checks with requests, payloads and values of 64 KiB .. 16 MiB, so
+// that buffers of the large size classes are handed out, retained, outgrown and recycled.
+func TestC09_Big(t *testing.T) {
+	rec := evid.New("C09", "c09_big", "enumeration: for n in {2^k+1 : k = 16..24}: reader histories {Next 100; Next n; Peek 9; Release; Next 100} and {Next n; Next n/2; Release; Next 7} (io.Reader-backed) and a bytes reader over an n-byte slice of power-of-two capacity with a failing over-read; writer histories {Malloc 100; WriteBinary n-1 (payload of exactly 2^k bytes in a power-of-two capacity buffer); Malloc n/2; Flush; Malloc 100; Flush} and {WriteBinary 2^k first; Malloc 100; Malloc 5000; Flush; WriteBinary 2^k; WriteBinary 10; Flush}; skip-decoder cases {values n, 10, n/2; with and without pool cycling; with a failed decode of a truncated n-byte value on a pooled decoder in between} for both stream skip decoders; co-tenant covers size classes up to 4n; distinct by construction")
+	defer rec.Flush()
+	bt := evid.NewBatch()
+	shard, nshards := evid.Shard()
+	idx := 0
+	fail := func(name string, c interface{}, v *evid.Violation) {
+		failEnum(t, rec, name, c, v)
+		rec.Merge(bt)
+	}
+	for k := 16; k <= 24; k++ {
+		n := 1<<k + 1
+		idx++
+		if idx%nshards != shard {
+			continue
+		}
+		plan := faultio.Plan{Chunks: []int{1 << 18}, ErrAt: -1, WithData: k%2 == 0}
+		readers := []ReaderCase{
+			{Total: n + 300, Plan: plan, Tenant: 1 + k%3, Ops: []ROp{{"next", 100}, {"next", n}, {"peek", 9}, {"release", 0}, {"next", 100}}},
+			{Total: n + n/2 + 50, Plan: plan, Tenant: 1 + (k+1)%3, Ops: []ROp{{"next", n}, {"next", n / 2}, {"release", 0}, {"next", 7}}},
+			{Bytes: true, Total: n - 1, Cap: n - 1, Tenant: 2, Ops: []ROp{{"next", 10}, {"next", n}, {"peek", n + 5}, {"release", 0}, {"next", 10}, {"release", 0}}},
+		}
+		for _, c := range readers {
+			var cv cov
+			if v := checkReaderTenant(c, &cv); v != nil {
+				fail("c09_reader_tenant", c, v)
+				return
+			}
+			bt.Evals++
+			bt.Distinct++
+			bt.Nontrivial++
+		}
+		for _, ops := range [][]WOp{
+			{{"malloc", 100}, {"writebin", n - 1}, {"lazy", n / 2}, {"flush", 0}, {"malloc", 100}, {"flush", 0}},
+			// a large payload as the very first write of a fresh (and of a just-flushed) writer, then more writes
+			{{"writebin", n - 1}, {"malloc", 100}, {"lazy", 5000}, {"flush", 0}, {"writebin", n - 1}, {"writebin", 10}, {"flush", 0}},
+		} {
+			wc := WriterCase{Pow2: true, Tenant: 1 + k%3, Ops: ops}
+			for _, bw := range []bool{false, true} {
+				wc.Bytes, wc.InitLen, wc.InitCap = bw, 16, 64
+				var cv cov
+				if v := checkWriterTenant(wc, &cv); v != nil {
+					fail("c09_writer_tenant", wc, v)
+					return
+				}
+				bt.Evals++
+				bt.Distinct++
+				bt.Nontrivial++
+			}
+		}
+		for variant := 0; variant < 8; variant++ {
+			sc := SkipTenantCase{Lens: []int{n, 10, n / 2, 100}, Reader: variant&1 == 1, Cycle: variant&2 != 0, Tenant: 1 + variant%3, Release: []bool{false, true, false, false},
+				Plan: faultio.Plan{Chunks: []int{1 << 18}, ErrAt: -1, WithData: variant&1 == 0}}
+			if variant&4 != 0 {
+				sc.Fail = []int{0, n, 0, n / 3}
+			}
+			var cv cov
+			if v := checkSkipTenant(sc, &cv); v != nil {
+				fail("c09_skip_tenant", sc, v)
+				return
+			}
+			bt.Evals++
+			bt.Distinct++
+			bt.Nontrivial++
+		}
+		debug.FreeOSMemory()
+	}
+	rec.Merge(bt)
+	rec.Sample(SkipTenantCase{Lens: []int{1<<22 + 1, 10, 1 << 21, 100}, Reader: true, Cycle: true, Tenant: 2, Fail: []int{0, 1<<22 + 1, 0, 1398101}})
+	rec.SetExhaustive()
+}
+
+// AbandonCase: slices obtained from a reader that is then dropped without Release. They must keep their
+// contents for as long as the caller holds them: nothing may recycle their memory behind the caller's
+// back (for instance from a finalizer).
+type AbandonCase struct {
+	Sizes []int `json:"sizes"` // Next sizes; the slices are retained
+	Peek  int   `json:"peek,omitempty"`
+	Total int   `json:"total"`
+	GCs   int   `json:"gcs"`
+}
+
+func waitFinalizers() {
+	// a sentinel queued in the same cycle; finalizers run one after the other on one goroutine
+	done := make(chan struct{})
+	s := new([64]byte)
+	runtime.SetFinalizer(s, func(*[64]byte) { close(done) })
+	s = nil
+	runtime.GC()
+	select {
+	case <-done:
+	case <-time.After(200 * time.Millisecond): // only sensitivity depends on this, never the verdict
+	}
+}
+
+func checkAbandon(c AbandonCase, cv *cov) (v *evid.Violation) {
+	if c.Total < 0 || c.Total > 1<<22 || len(c.Sizes) == 0 || len(c.Sizes) > 8 {
+		return nil
+	}
+	old := runtime.GOMAXPROCS(1)
+	defer runtime.GOMAXPROCS(old)
+	src := makeStream(c.Total)
+	type kept struct {
+		b   []byte
+		off int
+	}
+	var keep []kept
+	func() {
+		r := bufiox.NewDefaultReader(faultio.NewScriptReader(src, faultio.Plan{Chunks: []int{0}, ErrAt: -1}))
+		pos := 0
+		for _, n := range c.Sizes {
+			if n < 0 || pos+n > c.Total {
+				break
+			}
+			b, err := r.Next(n)
+			if err != nil {
+				break
+			}
+			keep = append(keep, kept{b, pos})
+			pos += n
+		}
+		if c.Peek > 0 && pos+c.Peek <= c.Total {
+			if b, err := r.Peek(c.Peek); err == nil {
+				keep = append(keep, kept{b, pos})
+			}
+		}
+		// the reader is dropped here, without Release
+	}()
+	gcs := c.GCs
+	if gcs < 1 {
+		gcs = 1
+	}
+	if gcs > 3 {
+		gcs = 3
+	}
+	for i := 0; i < gcs; i++ {
+		runtime.GC()
+		waitFinalizers()
+	}
+	tn := tenantFor(c.Total)
+	var prot []memRange
+	for _, k := range keep {
+		prot = append(prot, rangeOfLen(k.b))
+	}
+	if v = tn.sweep(prot, false); v != nil {
+		v.Msg = "after the reader was dropped without Release and the garbage collector ran: " + v.Msg
+		return v
+	}
+	for i, k := range keep {
+		if !bytes.Equal(k.b, src[k.off:k.off+len(k.b)]) {
+			return evid.Failf("slice %d (%d bytes at stream offset %d) obtained from a reader that was then dropped without Release no longer holds its bytes after %d garbage collections and other users of the shared pool", i, len(k.b), k.off, gcs)
+		}
+	}
+	cv.nontrivial = len(keep) > 0
+	cv.labelIf(len(keep) > 1, "several_slices_retained")
+	return nil
+}
+
+func init() { register("c09_abandon", checkAbandon) }
+
+func TestC09_Abandoned(t *testing.T) {
+	rec := evid.New("C09", "c09_abandoned", "rapid: 1..4 Next calls (sizes 1..70000, boundary sizes) and an optional Peek on an io.Reader-backed reader whose results are retained while the reader itself is dropped without Release; then 1..3 garbage collections (waiting for the finalizer goroutine), then the co-tenant takes and poisons buffers of every size class; the retained slices must still hold the stream bytes and must not overlap anything the pool hands out; non-trivial = at least one slice retained")
+	defer rec.Flush()
+	runRapid(t, rec, "c09_abandon", evid.Pick(150, 1500), func(t *rapid.T) AbandonCase {
+		c := AbandonCase{Total: rapid.SampledFrom([]int{100, 4096, 5000, 20000, 100000}).Draw(t, "total"), GCs: rapid.IntRange(1, 3).Draw(t, "gcs")}
+		c.Sizes = rapid.SliceOfN(rapid.SampledFrom([]int{1, 10, 100, 1000, 4095, 4096, 4097, 9000, 70000}), 1, 4).Draw(t, "sizes")
+		if rapid.Bool().Draw(t, "peek") {
+			c.Peek = rapid.SampledFrom([]int{1, 100, 5000}).Draw(t, "peekN")
+		}
+		return c
+	}, checkAbandon)
 }
